@@ -34,6 +34,7 @@ func init() {
 			{ID: "C10.R13", Floor: 2, Run: handleParamsReadOnly, Text: "registered-filter handles are read-only: no function writes through a *CachedFilter parameter; a zeroed handle carries id 0, a live id, so double unregistration would stop panicking"},
 			{ID: "C10.R14", Floor: 5, Run: lookupBeforeLock, Text: "the registered-filter lookup comes before the lock (= C09.R14): using an unregistered handle panics without leaving the world locked"},
 			{ID: "C10.R15", Floor: 2, Run: queryIntParamsRangeChecked, Text: "int arguments of query methods are not truncated (= C03.R16): a query index ≥ 2^32 is out of range and panics"},
+			{ID: "C10.R16", Floor: 2, Run: sameTargetSkipChecked, Text: "the same-target shortcut comes after the relation check: wherever a table's RelationTarget is compared with the requested target to skip the work, the relation check (flag and id) of that table dominates the comparison"},
 		},
 	})
 }
